@@ -345,6 +345,42 @@ let () = register "history" (fun args ->
     go [] [] ops obs 0 in
   (model, oracle))
 
+(* ---- the C twin: C15 ---- *)
+let () = register "ctable" (fun args ->
+  let f = S.split_on_char '|' (L.nth args 0) in
+  let cfg = parse_cfg (L.nth f 0) in
+  let mn = n_of_string (L.nth f 1) and mx = n_of_string (L.nth f 2) in
+  let refs = parse_list parse_ref (L.nth f 3) and logs = parse_list parse_log (L.nth f 4) in
+  let qs = split_on ',' (L.nth f 5) in
+  let impl = if L.length args < 2 then ["-"; "-"; ""; "-"] else S.split_on_char '#' (L.nth args 1) in
+  let st = L.nth impl 1 and chex = L.nth impl 2 in
+  let hs = if cfg.Writer.c_sha256 then 32 else 20 in
+  let w = Writer.write_table deflate cfg mn mx refs logs in
+  let read_all data = match Reader.rd_open data with
+    | Result.Ok rd -> S.concat "|" ("ok" :: L.map (model_query rd) qs)
+    | r -> show_res (fun _ -> "ok") r in
+  let leg1 = match w with
+    | Result.Ok (false, data) -> read_all data
+    | Result.Ok (true, _) -> "go-write-empty"
+    | _ -> "go-write-err" in
+  let st_class s = if s = "ok" then "ok" else if s = "empty" then "empty" else if S.length s >= 3 && S.sub s 0 3 = "err" then "err" else s in
+  let want_st = match w with Result.Ok (false, _) -> "ok" | Result.Ok (true, _) -> "empty" | _ -> "err" in
+  let part2 = if st_class st = want_st then st else want_st in
+  let leg2 = if st = "ok" then read_all (bytes_of_hex chex) else "-" in
+  let model = S.concat "#" [leg1; part2; chex; leg2] in
+  let oracle =
+    match w, norm_logs cfg.Writer.c_exact_log hs logs with
+    | Result.Ok (false, _), Some nlogs ->
+      let spec = S.concat "|" ("ok" :: L.map (spec_query refs nlogs) qs) in
+      if L.nth impl 0 <> spec then "bad:C reading the Go-written table differs from the records written"
+      else if st <> "ok" then "bad:C writer refused records the Go writer accepts (" ^ st ^ ")"
+      else if L.nth impl 3 <> spec then "bad:Go reading the C-written table differs from the records written"
+      else
+        let j = spec_judge (bytes_of_hex chex) refs nlogs mn mx cfg.Writer.c_sha256 in
+        if j = "ok" then "ok" else "bad:C-written table " ^ j
+    | _ -> "-" in
+  (model, oracle))
+
 (* ---- hostile bytes: C18 ---- *)
 let () = register "hostile" (fun args ->
   let f = S.split_on_char '|' (L.nth args 0) in
@@ -391,6 +427,7 @@ let parse_apires (s : string) : apires =
     | [txs; sh] -> RView (parse_ids txs, (if sh = "" then None else Some (nat_of_int (int_of_string sh))))
     | _ -> RPanic
   end else RPanic
+let size_table : (int, coq_N) Hashtbl.t ref = ref (Hashtbl.create 16)
 let parse_snapshot (s : string) : snapshot =
   match S.split_on_char '|' s with
   | [l; tabs; files] ->
@@ -399,7 +436,11 @@ let parse_snapshot (s : string) : snapshot =
     let tab t = match S.split_on_char '=' t with
       | [id; info] ->
         let st = match S.split_on_char ':' info with
-          | [range; txs] -> (match S.split_on_char '-' range with
+          | [range; txs] | [range; txs; _] ->
+            (match S.split_on_char ':' info with
+             | [_; _; sz] -> Hashtbl.replace !size_table (int_of_string id) (n_of_string sz)
+             | _ -> ());
+            (match S.split_on_char '-' range with
               | [a; b] -> TGood { ti_min = n_of_string a; ti_max = n_of_string b; ti_txs = parse_ids txs }
               | _ -> TBad)
           | _ -> TBad in
@@ -431,15 +472,132 @@ let parse_trace (s : string) : event list =
         Some (EFs (nat_of_int (int_of_string h), o, parse_path p, parse_fres res, []))
       | _ -> failwith ("bad event " ^ tok)) (S.split_on_char ' ' s)
 
+(* ---- the protocol model run on the implementation's schedule (tie) ---- *)
+let show_path = function
+  | PL -> "L" | PLL -> "LL" | PT n -> "T" ^ string_of_int (int_of_nat n) | PTL n -> "TL" ^ string_of_int (int_of_nat n)
+  | PTmp n -> "TMP" ^ string_of_int (int_of_nat n) | PDir -> "DIR" | POther -> "X"
+let show_ids l = S.concat "," (L.map (fun n -> string_of_int (int_of_nat n)) l)
+let show_fres = function FOk -> "ok" | FExist -> "EEXIST" | FNoEnt -> "ENOENT" | FOtherErr -> "EOTHER"
+let show_apiop = function
+  | AOpen -> "open" | AAdd (t, a) -> Printf.sprintf "add(%d,%d)" (int_of_nat t) (if a then 1 else 0)
+  | AAddMulti (t, a) -> Printf.sprintf "addmulti(%d,%d)" (int_of_nat t) (if a then 1 else 0)
+  | AAddEmpty -> "addempty" | AAddBad -> "addbad" | ACompactAll -> "compactall" | AExpire -> "expire"
+  | AClose -> "close" | ARead -> "read" | AClean -> "clean"
+let show_apires = function
+  | ROk -> "ok" | RLockFailure -> "lockfailure" | RRejected -> "rejected" | RErr -> "err" | RNoStack -> "nostack"
+  | RPanic -> "panic" | RReadErr -> "readerr"
+  | RView (txs, sh) ->
+    let sorted = L.sort compare (L.map int_of_nat txs) in
+    Printf.sprintf "view[%s|%s]" (S.concat "," (L.map string_of_int sorted)) (match sh with Some x -> string_of_int (int_of_nat x) | None -> "")
+let show_snapshot (s : snapshot) =
+  let l = match s.sn_list with None -> "-" | Some l -> show_ids l in
+  let tabs = S.concat ";" (L.map (fun (n, st) -> string_of_int (int_of_nat n) ^ "=" ^
+     (match st with TGood i -> string_of_n i.ti_min ^ "-" ^ string_of_n i.ti_max ^ ":" ^ show_ids i.ti_txs | TBad -> "BAD")) s.sn_tabs) in
+  let files = L.sort compare (L.map show_path s.sn_files) in
+  Printf.sprintf "@L=%s|%s|%s" l tabs (S.concat "," files)
+let show_event = function
+  | EFs (h, op, p, r, names) ->
+    let h = string_of_int (int_of_nat h) in
+    (match op with
+     | FRename d -> Printf.sprintf "%s:rename:%s>%s:%s" h (show_path p) (show_path d) (show_fres r)
+     | FReadFile -> Printf.sprintf "%s:read_file:%s:%s:%s" h (show_path p) (show_fres r) (show_ids names)
+     | FCreateExcl -> Printf.sprintf "%s:create_excl:%s:%s" h (show_path p) (show_fres r)
+     | FOpen -> Printf.sprintf "%s:open:%s:%s" h (show_path p) (show_fres r)
+     | FRemove -> Printf.sprintf "%s:remove:%s:%s" h (show_path p) (show_fres r)
+     | FCreateTemp -> Printf.sprintf "%s:create_temp:%s:%s" h (show_path p) (show_fres r)
+     | FReadDir -> Printf.sprintf "%s:read_dir:%s:%s" h (show_path p) (show_fres r))
+  | ESnap s -> show_snapshot s
+  | ECall (h, o) -> Printf.sprintf "%d:call:%s:-" (int_of_nat h) (show_apiop o)
+  | ERet (h, o, r) -> Printf.sprintf "%d:ret:%s:%s" (int_of_nat h) (show_apiop o) (show_apires r)
+  | EMem (h, n, c) -> Printf.sprintf "%d:mem:%s:%d" (int_of_nat h) (show_ids n) (int_of_nat c)
+  | ECrash h -> Printf.sprintf "%d:crash:-:-" (int_of_nat h)
+  | EViol -> "!viol"
+
+(* the order in which a Go map is walked is arbitrary: within a run of consecutive
+   table removals by one handle, sort the removals and keep only the last snapshot *)
+let normalise (evs : event list) : string list =
+  let is_rm = function EFs (_, FRemove, PT _, _, _) -> true | _ -> false in
+  let rec go acc = function
+    | [] -> L.rev acc
+    | (EFs (h, FRemove, PT _, _, _) as e) :: t when false ->
+      let rec take run last rest = match rest with
+        | (ESnap s) :: t' -> take run (Some s) t'
+        | (EFs (h', FRemove, PT _, _, _) as e') :: t' when h' = h -> take (e' :: run) last t'
+        | _ -> (run, last, rest) in
+      let (run, last, rest) = take [e] None t in
+      let strs = L.sort compare (L.map show_event run) in
+      let acc = L.rev_append strs acc in
+      let acc = match last with Some s -> show_snapshot s :: acc | None -> acc in
+      go acc rest
+    | e :: t -> go (show_event e :: acc) t in
+  ignore is_rm; go [] evs
+
+let strip_size_snapshot (s : snapshot) = s
+
+let model_stack_trace (args0 : string) (impl_evs : event list) : string option =
+  (* args0 = "sha,giveup|setup|scripts|schedule" *)
+  match S.split_on_char '|' args0 with
+  | flags :: _setup :: scripts :: _ ->
+    let give_up = (match S.split_on_char ',' flags with [_; g] -> g = "1" | _ -> false) in
+    let split_ops (sc : string) : string list =
+      let buf = Buffer.create 16 and out = ref [] and depth = ref 0 in
+      S.iter (fun ch ->
+          if ch = '(' then incr depth; if ch = ')' then decr depth;
+          if ch = ',' && !depth = 0 then (out := Buffer.contents buf :: !out; Buffer.clear buf)
+          else Buffer.add_char buf ch) sc;
+      if Buffer.length buf > 0 then out := Buffer.contents buf :: !out;
+      L.rev !out in
+    let scripts = L.map (fun sc -> L.map parse_apiop (split_ops sc)) (S.split_on_char ';' scripts) in
+    let modelled = L.for_all (L.for_all (function AAddMulti _ | AClean -> false | _ -> true)) scripts in
+    if not modelled then None else
+    Some (S.concat " " (
+      (* initial tables and the size oracle come from the implementation's snapshots *)
+      let sizes : (int, coq_N) Hashtbl.t = Hashtbl.create 16 in
+      ignore sizes;
+      let init = match impl_evs with ESnap s :: _ -> s | _ -> { sn_list = None; sn_tabs = []; sn_files = [] } in
+      let tabs = L.filter_map (fun (n, st) -> match st with
+          | TGood i -> Some (n, { StackProto.tf_min = i.ti_min; tf_max = i.ti_max; tf_txs = i.ti_txs;
+                                  tf_size = (try Hashtbl.find !size_table (int_of_nat n) with Not_found -> N0) })
+          | TBad -> None) init.sn_tabs in
+      let sched = L.filter_map (function
+          | ECall (h, _) -> Some (StackProto.Step (h, None))
+          | EFs (h, FRemove, PT n, _, _) -> Some (StackProto.Step (h, Some n))
+          | EFs (h, _, _, _, _) -> Some (StackProto.Step (h, None))
+          | ECrash h -> Some (StackProto.Crash h)
+          | _ -> None) impl_evs in
+      let oracle n = try Hashtbl.find !size_table (int_of_nat n) with Not_found -> N0 in
+      let attempts = if give_up then nat_of_int 1 else nat_of_int 50 in
+      normalise (StackProto.trace_of oracle attempts tabs scripts sched)))
+  | _ -> None
+
 let () = register "stackrun" (fun args ->
+  size_table := Hashtbl.create 16;
+  let impl_evs = if L.length args < 2 then [] else parse_trace (L.nth args 1) in
+  let model =
+    match model_stack_trace (L.nth args 0) impl_evs with
+    | None -> "-nomodel-"
+    | Some m ->
+      (* the harness appends one final snapshot after the run *)
+      let impl_body = match L.rev impl_evs with ESnap _ :: r -> L.rev r | _ -> impl_evs in
+      let i = S.concat " " (normalise impl_body) in
+      if m = i then L.nth args 1
+      else begin
+        let ml = S.split_on_char ' ' m and il = S.split_on_char ' ' i in
+        let rec first k a b = match a, b with
+          | x :: a', y :: b' -> if x = y then first (k + 1) a' b' else Printf.sprintf "MODEL-DIFF at event %d: model=%s impl=%s" k x y
+          | x :: _, [] -> Printf.sprintf "MODEL-DIFF at event %d: model=%s impl=<end>" k x
+          | [], y :: _ -> Printf.sprintf "MODEL-DIFF at event %d: model=<end> impl=%s" k y
+          | [], [] -> "MODEL-DIFF?" in
+        first 0 ml il
+      end in
   let oracle =
     if L.length args < 2 then "-" else
-    let tr = parse_trace (L.nth args 1) in
+    let tr = impl_evs in
     let want = match Sys.getenv_opt "VERIF_PROP" with Some p -> S.lowercase_ascii p | None -> "all" in
     let checks = [ ("c04", c04_ok); ("c05", c05_ok); ("c06", c06_ok); ("c08", c08_ok); ("c09", c09_ok); ("c10", c10_ok); ("c16", c16_ok) ] in
     let bad = L.filter_map (fun (n, f) -> if (want = "all" || want = n) && not (f tr) then Some n else None) checks in
     if bad = [] then "ok" else "bad:" ^ S.concat "," bad in
-  ("-nomodel-", oracle))
+  (model, oracle))
 
 let () =
   try
